@@ -195,6 +195,11 @@ func (round *round3) Start() *tss.Error {
 	// PRINT public key & private share
 	common.Logger.Debugf("%s public key: %x", round.PartyID(), eddsaPubKey)
 
+	// nothing is awaited in the final round: mark every party done so that the party finishes
+	// (and WaitingFor reports nobody) once the key has been handed over
+	for j := range round.ok {
+		round.ok[j] = true
+	}
 	round.end <- round.save
 	return nil
 }
